@@ -26,7 +26,19 @@ MANIFEST = dict(
         "(eval and evalDerivative; LinearModel and two-layer ConcatenatedModel; unweighted, weighted, mini-batch, with One/TwoNorm "
         "regularizer and masks, inside a CombinedObjectiveFunction) over random partitions and thread counts 1..B+1, "
         "AbstractLoss::eval(Data,Data), NegativeAUC, NegativeLogLikelihood, with in-harness oracles that recompute value and "
-        "gradient element by element and every loss value from its textbook definition."),
+        "gradient element by element and every loss value from its textbook definition. Object re-use (Lemmas/ObjReuse.lean, "
+        "Model/LossOut.lean, Model/ErrFnHist.lean): (a) output-object contract - for each of the nine derivative losses, for every "
+        "history of derivative calls (any losses, any shapes, any order) on ONE gradient object with arbitrary previous shape and "
+        "contents, every call leaves in the object what it leaves in a fresh one (outLoss_contract, runHistory_eq_fresh; from the "
+        "per-entry write lists of each loss and its clear() flag, the flags regenerated from the C++ on every run); (b) the model "
+        "object is scratch - for every history of eval/evalDerivative calls on several ErrorFunction objects (plain, weighted, "
+        "mini-batch, regularised; own loss and partition each) sharing one model, interleaved with foreign writes to the model, "
+        "copies, assignments, init() and thread-count changes, every evaluation is a function of (point, data set of the object) "
+        "(run_eq_runPure; rests on the regenerated fact that each entry point first writes the point into the model). Both are "
+        "exercised on the real code in every run (quick tier too): rderiv/rseq histories on one pre-filled gradient object (same and "
+        "different shapes, margins violated then satisfied and vice versa, one- and multi-column labels, rat and bit mode) and efh "
+        "histories (same point asked again after a foreign write), compared with the Lean models line by line and, by an in-harness "
+        "oracle, with the same call on freshly constructed objects (bit-equal on dyadic data)."),
   note=TRUST + "floating-point rounding is not modelled (theorems are about exact arithmetic; the step to doubles is the correspondence: "
        "data that is merged across threads is exact, exp/log/sqrt losses are compared bit for bit on one thread); hand-written "
        "models Model/Loss2.lean, Model/ErrFn.lean; the derivative theorems are per parameter (weight / offset of an optimised dense "
@@ -34,17 +46,24 @@ MANIFEST = dict(
        "excluded); NegativeAUC = pair count and the loss values' textbook definitions are oracles, not theorems; "
        "CrossValidationError is not reached (needs a trainer); the second-derivative overload of CrossEntropy and "
        "NegativeWilcoxonMannWhitneyStatistic are tied to the code only once findings F-C06-2/3 are fixed (until then the check "
-       "reports them as KNOWN-FINDING); open findings F-C06-1..4 in known_findings.json.",
+       "reports them as KNOWN-FINDING); the write lists of Model/LossOut.lean are hand-written (only the clear() flags and the "
+       "first-statement facts are regenerated); the batch a mini-batch evaluation draws is taken from the implementation's output "
+       "(the model gives the result for every batch); the fresh-object comparison is an oracle; open findings F-C06-5 (sequence "
+       "gradient appended to a re-used object), F-C06-6 (ErrorFunction::operator= not instantiable), F-C06-7 (copy constructor "
+       "leaves the regularizer uninitialised) in known_findings.json - until they are fixed no copy/asg steps are generated and the "
+       "rseq histories run in the recorded-defects run.",
   technique="Lean 4 proofs (algebraic identities over Rat, HasDerivAt over Real composed through the C04 chain theorems, thread-range tiling regenerated from the source) + exact/bit-exact differential correspondence with the C++ losses and the real ErrorFunction",
   design="§6 C06")
 FINISH = dict(level="proof",
               rule="cases = (loss, eval|deriv, batch of dyadic labels/predictions) for every loss class; (flavour, loss, model, partition, threads, "
-                   "data) for the real ErrorFunction; cost/auc/nll/discrete/sequence ops; exact-closed losses in rat mode, exp/log/sqrt "
+                   "data) for the real ErrorFunction; cost/auc/nll/discrete/sequence ops; histories of derivative calls on one gradient "
+                   "object (gset + 3..7 rderiv); histories of 4..20 steps on 1..6 ErrorFunction objects sharing a model (efh); "
+                   "exact-closed losses in rat mode, exp/log/sqrt "
                    "losses and everything divided by n in float mode; distinct = distinct op text; non-trivial = more than one row / batch")
 LAKE_TARGETS = ["SharkVerif.Props.C06", "drv_c06"]
 # Props/C06.lean states the property; the composition lemmas it imports are obligations of their own
 PROOF_MODULES = ["SharkVerif.Props.C06", "SharkVerif.Lemmas.ErrFn", "SharkVerif.Lemmas.ErrFn2", "SharkVerif.Lemmas.LossCurve1",
-                 "SharkVerif.Lemmas.LossCurve2", "SharkVerif.Lemmas.LossSecond", "SharkVerif.Lemmas.LossContract"]
+                 "SharkVerif.Lemmas.LossCurve2", "SharkVerif.Lemmas.LossSecond", "SharkVerif.Lemmas.LossContract", "SharkVerif.Lemmas.ObjReuse"]
 SRC = ["src/Core/Random.cpp", "src/ObjectiveFunctions/DiscreteLoss.cpp"]
 EXACT = ["squared", "squaredclass", "hinge", "sqhinge", "epshinge", "sqepshinge", "zeroone"]
 FLOATY = ["crossentropy", "crossentropysoft", "huber", "absolute", "squared", "hinge", "sqhinge", "epshinge"]
@@ -55,7 +74,9 @@ EF_CLS = ["squaredclass", "hinge", "sqhinge"]
 
 
 def translate(ctx):
-    return ctx.translate("par_regions.py")
+    a = ctx.translate("par_regions.py")
+    b = ctx.translate("loss_outputs.py")
+    return a and b
 
 
 WMW_PROBE = """#include <shark/ObjectiveFunctions/NegativeAUC.h>
@@ -64,11 +85,25 @@ double probe(Data<unsigned int> const& t, Data<RealVector> const& p){ NegativeWi
 """
 
 
+EFASSIGN_PROBE = """#include <shark/ObjectiveFunctions/ErrorFunction.h>
+using namespace shark;
+void probe(ErrorFunction<>& a, ErrorFunction<> const& b){ a = b; }
+"""
+
+
 def wmw_compiles(ctx):
-    """NegativeWilcoxonMannWhitneyStatistic::eval is a member of a class template: whether it can be instantiated at
-    all is only seen when it is used.  Syntax-only compile of a three-line probe, cached by the header's content."""
+    return probe_compiles(ctx, "include/shark/ObjectiveFunctions/NegativeAUC.h", WMW_PROBE)
+
+
+def efassign_compiles(ctx):
+    return probe_compiles(ctx, "include/shark/ObjectiveFunctions/ErrorFunction.h", EFASSIGN_PROBE)
+
+
+def probe_compiles(ctx, header, WMW_PROBE):
+    """A member of a class template (NegativeWilcoxonMannWhitneyStatistic::eval, ErrorFunction::operator=): whether it can
+    be instantiated at all is only seen when it is used.  Syntax-only compile of a three-line probe, cached by the header's content."""
     import hashlib, subprocess
-    hdr = os.path.join(core.REPO, "include/shark/ObjectiveFunctions/NegativeAUC.h")
+    hdr = os.path.join(core.REPO, header)
     key = hashlib.sha256((open(hdr).read() + WMW_PROBE).encode()).hexdigest()[:16]
     d = os.path.join(core.CACHE, "c06probe"); os.makedirs(d, exist_ok=True)
     res = os.path.join(d, key + ".res")
@@ -82,8 +117,8 @@ def wmw_compiles(ctx):
 
 
 def build(ctx):
-    flags = ["-DC06_HAVE_WMW"] if wmw_compiles(ctx) else []
-    return ctx.harness("c06" + ("w" if flags else ""), ["c06.cpp", "c06b.cpp"], repo_sources=SRC, flags=flags)
+    flags = (["-DC06_HAVE_WMW"] if wmw_compiles(ctx) else []) + (["-DC06_HAVE_EF_ASSIGN"] if efassign_compiles(ctx) else [])
+    return ctx.harness("c06" + ("w" if "-DC06_HAVE_WMW" in flags else "") + ("a" if "-DC06_HAVE_EF_ASSIGN" in flags else ""), ["c06.cpp", "c06b.cpp"], repo_sources=SRC, flags=flags)
 
 
 def dy(r, lo, hi, fracbits):
@@ -278,6 +313,175 @@ def gen_misc_case(r, ctx):
     return "mode float", f"nll {'eval' if r.chance(1, 2) else 'deriv'} | {nIn} linear:{hb}:1 | {r.choice([1, 2, 3, 4])} | {params} | {' '.join(map(str, sizes))} | {xs}"
 
 
+# ----------------------------------------------------------------------------- object re-use histories
+RE_EXACT = ["squared", "squaredclass", "hinge", "sqhinge", "epshinge", "sqepshinge"]
+RE_FLOAT = RE_EXACT + ["huber", "crossentropy", "crossentropysoft"]
+
+
+def gen_rderiv(r, ctx, loss, n, m, floaty, margin):
+    """one derivative call into the shared gradient object; `margin` in {"sat","viol","mixed"} steers the rows of the
+    margin losses to satisfy / violate their margin (a satisfied margin is the row the loss does not write)"""
+    par = ""
+    if loss in ("epshinge", "sqepshinge"): par = dy(r, 0, 2, 1) if margin != "sat" else dy(r, 6, 9, 0)
+    if loss == "huber": par = dy(r, 1, 3, 1)
+    if loss in CLASS:
+        classes = 2 if m == 1 else m
+        labs = [r.below(classes) for _ in range(n)]
+        rows = []
+        for i in range(n):
+            mode = margin if margin != "mixed" else r.choice(["sat", "viol", "any"])
+            if m == 1:
+                y = 2 * labs[i] - 1
+                if mode == "sat": rows.append(str(y * r.range(1, 4)))              # y f >= 1 (incl. exactly on the margin)
+                elif mode == "viol": rows.append(dy(r, -4, 1, 1) if y > 0 else dy(r, -1, 4, 1))
+                else: rows.append(dy(r, -3, 3, 1))
+            else:
+                if mode == "sat": rows.append(" ".join(str(4 if j == labs[i] else r.range(-2, 2)) for j in range(m)))   # f_c - f_o >= 2
+                elif mode == "viol": rows.append(" ".join(str(0 if j == labs[i] else r.range(-1, 3)) for j in range(m)))
+                else: rows.append(" ".join(dy(r, -3, 3, 1) for _ in range(m)))
+        labels = " ".join(map(str, labs)); preds = " ".join(rows)
+    else:
+        labels = " ".join(dy(r, -3, 3, 1) for _ in range(n * m))
+        preds = " ".join(dy(r, -3, 3, 1) for _ in range(n * m))
+    return f"rderiv {loss} | {par} | {n} {m} | {labels} | {preds}"
+
+
+def gen_reuse_case(r, ctx, floaty):
+    """history of derivative calls of several losses on ONE gradient object that starts with non-zero garbage: same shape
+    again (resize keeps every entry), other shapes (the flat storage is re-interpreted), margins satisfied after violated
+    and the other way round"""
+    pool = RE_FLOAT if floaty else RE_EXACT
+    calls = r.range(3, 7)
+    n, m = r.choice([1, 2, 3, 5]), r.choice([1, 1, 2, 3])
+    loss = r.choice(pool)
+    ops, prev = [], None
+    for k in range(calls):
+        if k and not r.chance(2, 3):
+            n, m = r.choice([1, 2, 3, 5]), r.choice([1, 1, 2, 3])
+        if k and r.chance(1, 2): loss = r.choice(pool)
+        if loss == "squaredclass" and m == 1: loss = r.choice(["hinge", "sqhinge"])
+        margin = r.choice(["sat", "viol", "mixed"])
+        if prev and prev[0] == (n, m) and prev[1] == "viol" and r.chance(2, 3): margin = "sat"
+        ctx.hist("reuse_shape_vs_previous_call", "first" if prev is None else ("same" if prev[0] == (n, m) else "different"))
+        if prev and prev[0] == (n, m): ctx.hist("reuse_margin_transition_same_shape", f"{prev[1]}->{margin}")
+        ctx.hist("reuse_loss", f"{loss}:{'one-column' if m == 1 else 'multi-column'}")
+        ops.append(gen_rderiv(r, ctx, loss, n, m, floaty, margin))
+        prev = ((n, m), margin)
+    # the object before the first call: same shape as the first call (typical: left over from the previous batch), or any other
+    f = ops[0].split("|")[2].split()
+    g = (int(f[0]), int(f[1])) if r.chance(1, 2) else (r.range(0, 6), r.range(0, 3))
+    garbage = " ".join(str(r.choice([-9, -7, 5, 7, 9, 11])) for _ in range(g[0] * g[1]))
+    return ["mode float" if floaty else "mode rat", f"gset | {g[0]} {g[1]} | {garbage}"] + ops
+
+
+def gen_seq_reuse_case(r, ctx):
+    d = r.range(1, 2); ops = ["mode rat", f"sset | {d} | {' '.join(str(r.range(0, 3)) for _ in range(r.range(0, 3)))} | {r.choice([5, 7, -9])}"]
+    ns = r.choice([1, 2, 3])
+    for _ in range(r.range(2, 4)):
+        if r.chance(1, 3): ns = r.choice([1, 2, 3])
+        ignore = r.choice([0, 0, 1]); lens = [r.range(ignore + 1, 4) for _ in range(ns)]; tot = sum(lens)
+        ops.append(f"rseq | {ignore} {d} | {' '.join(map(str, lens))} | {' '.join(dy(r, -3, 3, 2) for _ in range(tot * d))} | {' '.join(dy(r, -3, 3, 2) for _ in range(tot * d))}")
+    return ops
+
+
+def composition(r, n):
+    k = r.choice(["one", "singletons", "random", "random"])
+    if k == "one": return [n]
+    if k == "singletons": return [1] * n
+    out, left = [], n
+    while left:
+        x = r.range(1, min(left, 3)); out.append(x); left -= x
+    return out
+
+
+def efcopy_ok(ctx, exe):
+    """does the copy constructor of ErrorFunction initialise all members on the checked tree? (asked of the harness:
+    evaluating a copy with an uninitialised regularizer pointer is undefined behaviour, so the generator must know)"""
+    import subprocess
+    p = subprocess.run([exe], input="efcopyprobe\n", capture_output=True, text=True)
+    return p.stdout.strip() == "copy-initialises-all-members"
+
+
+def gen_efh_case(r, ctx, have_assign=True, have_copy=True):
+    """history of evaluations of several ErrorFunction objects (plain / weighted / mini-batch, with and without
+    regularizer, different partitions of the same data, different losses) that share ONE model object, interleaved with
+    foreign writes to the model, copies, assignments, init() and changes of the thread count; the same point is asked
+    again after the model was changed by somebody else"""
+    fam = r.choice(["vec", "cls"])
+    losses = EF_VEC if fam == "vec" else EF_CLS
+    m = r.choice([1, 1, 2, 3])
+    if fam == "cls" and m == 1: losses = ["hinge", "sqhinge"]
+    nIn, spec, np_ = gen_net(r, ctx, m, "efh")
+    n = r.range(2, 7)
+    parts = [composition(r, n) for _ in range(r.range(1, 3))]
+    npts = r.range(2, 4)
+    pts = [[dy(r, -2, 2, 1) for _ in range(np_)] for _ in range(npts)]
+    xs = " ".join(dy(r, -3, 3, 2) for _ in range(n * nIn))
+    labs = gen_labels(r, ctx, losses[0] if fam == "cls" else "squared", n, m, "efh")
+    ws = " ".join(dy(r, 0, 3, 1) for _ in range(n - 1)) + " " + dy(r, 1, 3, 1)
+    reg = dy(r, 0, 2, 2) + ("" if r.chance(1, 2) else " " + " ".join(str(r.below(2)) for _ in range(np_)))
+    objs = []
+    for _ in range(r.range(1, 4)):
+        fl = r.choice(["plain", "plain", "w", "mini"]); lo = r.choice(losses)
+        par = dy(r, 0, 2, 1) if lo in ("epshinge", "sqepshinge") else "-"
+        objs.append([fl, lo, par, str(r.below(len(parts))), r.choice(["none", "none", "one", "two"])])
+        ctx.hist("efh_objects", f"{fl}:{'reg' if objs[-1][4] != 'none' else 'noreg'}")
+    initial = [list(ob) for ob in objs]
+    steps, last, T = [], {}, r.choice([1, 2, 3, 4, 8])
+    def ev(o, pt):
+        k = r.choice(["e", "d", "d"]); steps.append(f"{k} {o} {pt}"); ctx.hist("efh_steps", k)
+    def foreign(o, pt):
+        """something else changes the model object"""
+        others = [q for q in range(npts) if q != pt] or [pt]
+        q = r.choice(others)
+        k = r.choice(["set", "other-object", "copy-evaluated"]) if (len(objs) < 6 and have_copy) else r.choice(["set", "other-object"])
+        if k == "set": steps.append(f"set {q}")
+        elif k == "other-object": steps.append(f"{r.choice(['e', 'd'])} {r.below(len(objs))} {q}")
+        else:
+            if True:
+                src = r.below(len(objs)); steps.append(f"copy {src}"); objs.append(list(objs[src])); steps.append(f"e {len(objs) - 1} {q}")
+        ctx.hist("efh_foreign_write", k)
+    for _ in range(r.range(4, 10)):
+        k = r.choice(["ev", "ev", "ev", "again", "again", "set", "copy" if have_copy else "ev", "asg" if have_assign else "set", "init", "thr"])
+        o = r.below(len(objs))
+        if k == "ev": pt = r.below(npts); ev(o, pt); last[o] = pt
+        elif k == "again":
+            # the same object at the same point, after somebody else touched the model
+            pt = last.get(o, r.below(npts))
+            if o not in last: ev(o, pt)
+            foreign(o, pt); ev(o, pt); last[o] = pt; ctx.count("efh_same_point_again_after_foreign_write")
+        elif k == "set": steps.append(f"set {r.below(npts)}"); ctx.hist("efh_steps", "set")
+        elif k == "copy" and len(objs) < 6:
+            steps.append(f"copy {o}"); objs.append(list(objs[o])); last[len(objs) - 1] = last.get(o); ctx.hist("efh_steps", "copy")
+            if last[len(objs) - 1] is None: del last[len(objs) - 1]
+        elif k == "asg":
+            a = r.below(len(objs))
+            if a != o:
+                steps.append(f"asg {a} {o}"); objs[a] = list(objs[o]); ctx.hist("efh_steps", "asg")
+                if o in last: last[a] = last[o]
+                else: last.pop(a, None)
+        elif k == "init": steps.append(f"init {o}"); ctx.hist("efh_steps", "init")
+        elif k == "thr": steps.append(f"thr {r.choice([1, 2, 3, 4, 8])}"); ctx.hist("efh_steps", "thr")
+    if not any(s[0] in "ed" and s[1] == " " for s in steps): ev(0, 0)
+    objsec = " ; ".join(" ".join(ob) for ob in initial)        # objects created by `copy` are not part of the object section
+    return (f"efh {fam} | {nIn} {' '.join(spec)} | {T} | {' '.join(' '.join(p) for p in pts)} | {xs} | {labs} | "
+            f"{' ; '.join(' '.join(map(str, p)) for p in parts)} | {ws} | {reg} | {objsec} | {' ; '.join(steps)}")
+
+
+def efh_cmp(impl, model):
+    """an `efh` line: the implementation prints the drawn batch of a mini-batch evaluation (`{@i result}`), the model every
+    candidate (`{r0 # r1 # …}`): the drawn index is a fact about the random number generator, the result for it must agree"""
+    if not impl.startswith("{@"): return False
+    a, b = impl.split(" ## "), model.split(" ## ")
+    if len(a) != len(b): return False
+    for x, y in zip(a, b):
+        mm = re.fullmatch(r"\{@(\d+) (.*)\}", x)
+        if not mm or not (y.startswith("{") and y.endswith("}")): return False
+        c = y[1:-1].split(" # "); i = int(mm.group(1))
+        if i >= len(c) or c[i] != mm.group(2): return False
+    return True
+
+
 def load_corpus():
     d = os.path.join(core.VERIF, "corpus", "C06")
     out = []
@@ -347,6 +551,14 @@ def run(ctx):
         cases.append(["mode float", gen_cost_case(r, ctx)])
         cases.append(["mode float", gen_auc_case(r, ctx, "auc")])
         mode, op = gen_misc_case(r, ctx); cases.append([mode, op])
+    # ---- third part: object re-use histories (output objects of the losses; error functions sharing a model object)
+    for _ in range(per):
+        cases.append(gen_reuse_case(r, ctx, False))
+        cases.append(gen_reuse_case(r, ctx, True))
+    have_assign = efassign_compiles(ctx); have_copy = efcopy_ok(ctx, exe)
+    ctx.cov["efh_copy_steps_generated"] = have_copy; ctx.cov["efh_assign_steps_generated"] = have_assign
+    for _ in range(2 * per):
+        cases.append(["mode float", gen_efh_case(r, ctx, have_assign, have_copy)])
     have_wmw = wmw_compiles(ctx)
     if have_wmw:
         for _ in range(per // 2):
@@ -358,7 +570,8 @@ def run(ctx):
     corpus = [c for n, c in allcorpus if not re.match(r"f\d+_", n)]
     cases = corpus + cases
     for c in cases:
-        ctx.hist("op_kinds", " ".join(c[1].split()[:2]) if c[1].split()[0] in ("eval", "deriv") else c[1].split()[0])
+        for l in c[1:]:
+            ctx.hist("op_kinds", " ".join(l.split()[:2]) if l.split()[0] in ("eval", "deriv", "rderiv") else l.split()[0])
     ctx.cov["evaluations"] = len(cases)
     ctx.cov["distinct_nontrivial"] = len({c[1] for c in cases if " | " in c[1] and len(c[1].split("|")) >= 4 and not c[1].split("|")[2].strip().startswith("1 ")
                                           and not (c[1].startswith("ef ") and c[1].split("|")[5].split() in ([], ["1"]))})
@@ -370,14 +583,25 @@ def run(ctx):
     fcases = fcorpus + [["mode float", gen_zow_case(r, ctx)] for _ in range(12)]
     fcases += [["mode float", f"hess crossentropy | | 1 {m} | {r.below(max(m, 2))} | {' '.join(dy(r, -4, 4, 3) for _ in range(m))}"] for m in (1, 1, 2, 3, 4, 3)]
     fcases += [["mode float", f"ef {k} | squared | 1 linear:{hb}:1 | {t} | {' '.join(['1'] * (1 + hb))} | | | | none"] for k in ("eval", "deriv") for hb in (0, 1) for t in (1, 3)]
+    fcases += [gen_seq_reuse_case(r, ctx) for _ in range(12)]; ctx.hist("op_kinds", "rseq histories", 12)
+    fcases += [["mode float", "efcopyprobe"]]
     ctx.hist("op_kinds", "zow", 12); ctx.hist("op_kinds", "hess crossentropy", 6); ctx.hist("op_kinds", "ef empty-dataset", 8)
     if not have_wmw:
         ctx.violation("F-C06-3-wilcoxon-mann-whitney-not-instantiable:wmw",
                       {"probe": WMW_PROBE, "compile": "g++ -std=c++11 -fsyntax-only -I<repo>/include probe.cpp"}, found_input=True,
                       what="NegativeWilcoxonMannWhitneyStatistic::eval cannot be instantiated (Data has no operator()(i) / size())")
+    if not have_assign:
+        ctx.violation("F-C06-6-errorfunction-assignment-not-instantiable:efh",
+                      {"probe": EFASSIGN_PROBE, "compile": "g++ -std=c++11 -fsyntax-only -I<repo>/include probe.cpp"}, found_input=True,
+                      what="ErrorFunction::operator= cannot be instantiated (unqualified swap of the feature flags finds no overload)")
     if drv:
-        core.correspond(ctx, "K-C06", cases, [exe], [drv], classify, keep_prefix=1)
-        core.correspond(ctx, "K-C06[recorded-defects]", fcases, [exe], [drv], classify, keep_prefix=1)
+        core.correspond(ctx, "K-C06", cases, [exe], [drv], classify, keep_prefix=1, cmp=efh_cmp)
+        core.correspond(ctx, "K-C06[recorded-defects]", fcases, [exe], [drv], classify, keep_prefix=1, cmp=efh_cmp)
+        if any(found for _, found in ctx.violations):
+            # a regenerated fact of Gen/LossOutputs.lean no longer holds and the object-reuse theorems stopped checking:
+            # the correspondence run has turned that into a concrete failing input
+            for b in ctx.breaks:
+                if b["kind"] == "theorem" and "ObjReuse" in b["name"]: b["resolved"] = True
     else:
         # the model no longer builds (a regenerated obligation failed): search the implementation alone
         # for a concrete failing input with the independent oracle
@@ -386,7 +610,7 @@ def run(ctx):
 
 def replay(ctx, rep):
     exe = build(ctx); drv = ctx.driver("drv_c06")
-    res = core.run_case(ctx, [exe], [drv], rep["ops"])
+    res = core.run_case(ctx, [exe], [drv], rep["ops"], cmp=efh_cmp)
     print("\n".join(f"impl : {a}\nmodel: {b}" for a, b in zip(res.impl, res.model)))
     print("OK" if res.ok else "FAILS")
     return 0 if res.ok else 1
